@@ -1150,6 +1150,36 @@ def own_offset_canon(e):
     return s
 
 
+def sized_to(eng, f, c, vecname):
+    """canon of the expression the vector `vecname` was sized to before copy c in f: a dominating resize, the
+    constructor's member initialiser, or the initialiser of the constructor this one delegates to."""
+    fb = eng.fb
+    sized = None
+    for x in f.calls("std::vector::resize"):
+        if canon(x.get("obj")) == vecname and f.cfg.pos_of.get(x["id"], 1 << 30) < f.cfg.pos_of.get(c["id"], 0) or \
+                (canon(x.get("obj")) == vecname and f.cfg.block_for(x) != f.cfg.block_for(c) and f.cfg.dominates(f.cfg.block_for(x), f.cfg.block_for(c))):
+            sized = canon(strip_all_casts(x["args"][0]))
+    for i in f.raw.get("inits", []) or []:
+        if i.get("field") and ("this->" + i["name"]) == vecname:
+            e = i.get("e", {})
+            a = e.get("args", [])
+            if a:
+                sized = canon(strip_all_casts(a[0]))
+        elif i.get("delegating") and isinstance(i.get("e"), dict):
+            # delegating constructor: the target's initialiser sizes the member from one of its parameters
+            g = fb.resolve_call(i["e"])
+            dargs = facts.effective_call(i["e"]).get("args", []) if g is not None else []
+            for j in (g.raw.get("inits", []) if g is not None else []) or []:
+                if j.get("field") and ("this->" + j["name"]) == vecname:
+                    ja = (j.get("e") or {}).get("args", [])
+                    if ja:
+                        src0 = strip_all_casts(ja[0])
+                        gpd = [q["decl"] for q in g.params]
+                        if src0.get("dk") == "param" and src0.get("decl") in gpd and gpd.index(src0["decl"]) < len(dargs):
+                            sized = canon(strip_all_casts(dargs[gpd.index(src0["decl"])]))
+    return sized
+
+
 def justify_copy(eng, f, c, dst, src, ln, managed=False):
     fb = eng.fb
     L = const_value(ln)
@@ -1157,6 +1187,15 @@ def justify_copy(eng, f, c, dst, src, ln, managed=False):
     ps, pd = prov(f, src), (Prov("managed") if managed else prov(f, dst))
     fs = eng.mf(f).at(c)
     reasons = []
+    # a length spelled as the destination's size() stands for what the destination was sized to (Payload(type, data, size)
+    # delegating to the sizing constructor, then copying payloadData.size() bytes)
+    lnn0 = strip_all_casts(ln)
+    if pd.kind == "vec" and pd.off == 0 and lnn0.get("k") == "call" and (lnn0.get("callee") or {}).get("nm") == "size" and canon(lnn0.get("obj")) == pd.base:
+        sz = sized_to(eng, f, c, pd.base)
+        if sz is not None:
+            lcan = sz
+            if not any(d == lvalue_root(lnn0.get("obj")) and k.startswith("call:") for d, k, _ in writes_of(f)):
+                L = None
     # ---------------- read side
     rd_ok = False
     if ps.kind == "localobj":
@@ -1304,29 +1343,7 @@ def justify_copy(eng, f, c, dst, src, ln, managed=False):
         if dd.get("k") == "bin" and dd.get("op") == "+":
             offc = canon(strip_all_casts(dd["r"]))
         vecname = pd.base
-        sized = None
-        for x in f.calls("std::vector::resize"):
-            if canon(x.get("obj")) == vecname and f.cfg.pos_of.get(x["id"], 1 << 30) < f.cfg.pos_of.get(c["id"], 0) or \
-                    (canon(x.get("obj")) == vecname and f.cfg.block_for(x) != f.cfg.block_for(c) and f.cfg.dominates(f.cfg.block_for(x), f.cfg.block_for(c))):
-                sized = canon(strip_all_casts(x["args"][0]))
-        for i in f.raw.get("inits", []) or []:
-            if i.get("field") and ("this->" + i["name"]) == vecname:
-                e = i.get("e", {})
-                a = e.get("args", [])
-                if a:
-                    sized = canon(strip_all_casts(a[0]))
-            elif i.get("delegating") and isinstance(i.get("e"), dict):
-                # delegating constructor: the target's initialiser sizes the member from one of its parameters
-                g = fb.resolve_call(i["e"])
-                dargs = facts.effective_call(i["e"]).get("args", []) if g is not None else []
-                for j in (g.raw.get("inits", []) if g is not None else []) or []:
-                    if j.get("field") and ("this->" + j["name"]) == vecname:
-                        ja = (j.get("e") or {}).get("args", [])
-                        if ja:
-                            src = strip_all_casts(ja[0])
-                            pd = [q["decl"] for q in g.params]
-                            if src.get("dk") == "param" and src.get("decl") in pd and pd.index(src["decl"]) < len(dargs):
-                                sized = canon(strip_all_casts(dargs[pd.index(src["decl"])]))
+        sized = sized_to(eng, f, c, vecname)
         exp = lcan if not offc else "(%s + %s)" % (offc, lcan)
         alt = None if not offc else "(%s + %s)" % (lcan, offc)
         if sized is not None and sized in (exp, alt):
